@@ -670,6 +670,7 @@ class CxxEvaluator(Evaluator):
         Evaluator.__init__(self, h, globals_ or {}, ptr_lt=True, prog=prog)
         self.structs = structs or {}
         self.defaults = defaults or {}
+        self.statics = {}          # function-local statics keep their value between calls of one evaluator
 
     def arith(self, op, a, b):
         """untyped fallback (no type recorded on the node): unsigned 64-bit"""
@@ -719,6 +720,31 @@ class CxxEvaluator(Evaluator):
     def call(self, func, this, args):
         args = [conv(a, p.get("t")) for p, a in zip(func["params"], args)] + list(args[len(func["params"]):])
         return conv(Evaluator.call(self, func, this, args), func.get("ret"))
+
+    def new_object(self, cls, args=()):
+        """an instance of a repository class: built by its constructor of that arity when the facts have one (this runs the default
+        member initialisers too), otherwise an object without fields"""
+        last = cls.split("::")[-1].split("<")[0]
+        cands = [f for f in self.prog.funcs.values() if f.get("cls") == cls and f["n"] == last and len(f["params"]) == len(args)
+                 and (f.get("body") is not None or f.get("inits"))] if self.prog is not None else []
+        if len(cands) == 1:
+            return self.construct(cands[0], Obj(cls), list(args))
+        o = Obj(cls)
+        # no constructor in the facts (implicit and never ODR-used here): the default member initialisers still apply
+        def defaults(c, depth=0):
+            rec = (self.prog.records.get(c) if self.prog is not None else None) or {}
+            for b in rec.get("bases", []):
+                bn = b if isinstance(b, str) else (b.get("t") or "")
+                if depth < 4:
+                    defaults(bn, depth + 1)
+            for fl in rec.get("fields", []):
+                if fl.get("init") is not None and fl.get("n"):
+                    v = self.eval(fl["init"], {}, o)
+                    if isinstance(v, list) and len(v) == 1:
+                        v = v[0]
+                    setattr(o, fl["n"], conv(v, fl.get("t")))
+        defaults(cls)
+        return o
 
     def _alias_sync(self, obj, field, val):
         """members of an anonymous union share their bytes: a store to one is visible, reinterpreted, through the others"""
@@ -774,6 +800,14 @@ class CxxEvaluator(Evaluator):
         if isinstance(s, dict) and s.get("k") == "decl":
             self.steps += 1
             for v in s["vars"]:
+                if v.get("static"):
+                    if v["id"] not in self.statics:
+                        if v.get("init") is None:
+                            t0 = v.get("t", "")
+                            self.statics[v["id"]] = self._default(t0) if tinfo(t0) is None else conv(0, t0)
+                        else:
+                            self.statics[v["id"]] = conv(self.eval(v["init"], env, this), v.get("t"))
+                    continue
                 if v.get("init") is None:
                     t = v.get("t", "")
                     if t.endswith("]") and "[" in t:
@@ -813,6 +847,8 @@ class CxxEvaluator(Evaluator):
             pass
         if k == "ref" and e.get("d") == "global" and e.get("q") not in self.globals and tinfo(e.get("t")) is None:
             return Sym.of(e.get("q"))
+        if k == "ref" and e.get("d") == "slocal" and e.get("id") in self.statics:
+            return self.statics[e["id"]]
         if k == "new":
             if e.get("array"):
                 raise Broken("array new is not modelled")
@@ -1034,6 +1070,13 @@ class CxxEvaluator(Evaluator):
                 tgt.assign_from(val)
                 return
             raise Broken("store to the result of a call the evaluator does not model")
+        if k == "ref" and u.get("d") == "slocal" and u.get("id") in self.statics:
+            cur = self.statics[u["id"]]
+            if hasattr(cur, "assign_from") and hasattr(val, "assign_from") and type(cur) is type(val):
+                cur.assign_from(val)
+            else:
+                self.statics[u["id"]] = conv(val, u.get("t"))
+            return
         if k == "ref":
             t = u.get("t", "")
             cur = env.get(u["id"])
